@@ -11,7 +11,8 @@ Section Inv.
     v_val vr = p_val pv /\
     (match v_val vr with Some x => valid d x = true | None => True end) /\
     0 <= d_rate d /\
-    (if d_ev d then v_last vr = p_trig pv /\ v_dfr vr = p_dirty pv /\ v_last vr <= t
+    (if d_ev d then v_last vr = p_trig pv /\ v_dfr vr = p_dirty pv /\ v_last vr <= t /\
+                    (p_dirty pv = true -> p_trig pv <= p_chg pv)
      else v_dfr vr = false /\ p_dirty pv = false).
 
   Definition vrel (vs : list var) (pvs : list pvar) (t : Z) : Prop :=
@@ -110,7 +111,7 @@ Section Inv.
     apply fresh_from_true. intros i d pv Hc Hp Hev. cbn [Nat.add].
     destruct (vrel_nth _ _ _ i d Hv Hc) as [vr [pv' [Hvr [Hpv' Hok]]]].
     rewrite Hp in Hpv'. inversion Hpv'; subst pv'. clear Hpv'.
-    destruct Hok as [Hval [_ [Hrate Hev']]]. rewrite Hev in Hev'. destruct Hev' as [Hl [Hd Hle]].
+    destruct Hok as [Hval [_ [Hrate Hev']]]. rewrite Hev in Hev'. destruct Hev' as [Hl [Hd [Hle _]]].
     destruct (Hfr i d vr Hc Hvr Hev) as [Hlk|Hdfr].
     - left. exists (v_val vr). split; auto. rewrite Hval. apply opt_eqb_refl.
     - right. split; [congruence|].
